@@ -4,9 +4,12 @@ set -u
 PATCH=$(readlink -f "$1"); TIER=$2; shift 2
 cd /repo && [ -z "$(git status --porcelain)" ] || { echo "/repo not clean"; exit 2; }
 git apply "$PATCH" || { echo "patch does not apply"; exit 2; }
+# evidence files are rewritten by every run: keep the ones of the unchanged tree
+EVBAK=$(mktemp -d); cp -a /verif/evidence/. $EVBAK/
 cd /verif
 for p in "$@"; do
   out=$(./check $p --tier $TIER 2>&1); rc=$?
   echo "== $p exit=$rc"; echo "$out" | grep -E "violation signature|^VIOLATION|BROKEN|^$p " | cut -c1-400 | head -8
 done
+cp -a $EVBAK/. /verif/evidence/; rm -rf $EVBAK
 git -C /repo checkout -- . ; git -C /repo status --porcelain | head -3
